@@ -45,6 +45,7 @@ FAMILY = [
     ("p/mkval-5", "p", "cmd"),
     ("p/boom", "p", "fail"),
     ("p/evalexc", "p", "fail"),
+    ("p/subfail", "p", "fail"),
     ("p/addn-5/out.json", "p/addn-5", "file"),
     ("p/addn-5/pic.png", "p/addn-5", "file"),
     ("p/addn-5/x.unknownext", "p/addn-5", "file"),
@@ -52,7 +53,7 @@ FAMILY = [
     ("p/sub", "p", "cmd"),
 ]
 VALUES = {"p/mkval-0": None, "p/mkval-1": 5, "p/mkval-2": "txt", "p/mkval-3": {"a": 1}, "p/mkval-4": b"by"}
-STORE_KEYS = {"p/mkval-1": "res/v.json", "p/mkval-2": "res/v.txt", "p/mkval-3": "res/v.json", "p/mkval-4": "res/v.b", "p/boom": "res/f.txt", "p/evalexc": "res/g.txt"}
+STORE_KEYS = {"p/mkval-1": "res/v.json", "p/mkval-2": "res/v.txt", "p/mkval-3": "res/v.json", "p/mkval-4": "res/v.b", "p/boom": "res/f.txt", "p/evalexc": "res/g.txt", "p/subfail": "res/h.txt"}
 
 
 def ob_metadata_step(v: int, keepv: int, pvol: bool, with_store: bool) -> bool:
@@ -65,7 +66,7 @@ def ob_metadata_step(v: int, keepv: int, pvol: bool, with_store: bool) -> bool:
     pvars = {"active_namespaces": ["n2", "root"]} if ptext == "p/ns-n2" else {}
     sp = mkstate(ptext, Box(v), volatile=pvol, vars=pvars, attributes={"Persist": keepv, "lower": 1},
                  commands=[["addn", "5"]] if ptext == "p/addn-5" else ([["ns", "n2"]] if ptext == "p/ns-n2" else []))
-    subs = {ptext: sp, "/lnk": mkstate("/lnk", 2), "one/addn-2": mkstate("one/addn-2", Box(3))}
+    subs = {ptext: sp, "/lnk": mkstate("/lnk", 2), "one/addn-2": mkstate("one/addn-2", Box(3)), "bad/q": mkstate("bad/q", None, error=True)}
     cache = MemoryCache()
     store = MemoryStore()
     ctx = HContext(cache, subs, store=store)
@@ -86,7 +87,7 @@ def ob_metadata_step(v: int, keepv: int, pvol: bool, with_store: bool) -> bool:
     ok = ok and got == (m["status"] == "ready")
     cm = cache.get_metadata(canonical)
     if kind == "fail":
-        msg = "boom-message" if "boom" in q else "evalexc-message"
+        msg = "boom-message" if "boom" in q else ("evalexc-message" if "evalexc" in q else "pred failed")
         has_msg = any(msg in (e.get("message") or "") for e in m.get("log", []) + m.get("child_log", []))
         ok = ok and out.is_error and has_msg and cm is not None and cm.get("status") == "error" and cm.get("is_error") is True
         ok = ok and any(msg in (e.get("message") or "") for e in cm.get("log", []) + cm.get("child_log", []))
